@@ -638,7 +638,12 @@ class BiproportionalEvaluator:
         """
         aug_path = [start_district]
         cur_source = districts_labeled
-        while aug_path[-1] not in districts_over:
+        # Districts and parties alternate along the path; only a district can
+        # end it (a party may bear the same name as a district).
+        while (
+            cur_source is parties_labeled
+            or aug_path[-1] not in districts_over
+        ):
             aug_path.append(cur_source[aug_path[-1]].pop())
             if cur_source is parties_labeled:
                 cur_source = districts_labeled
